@@ -878,18 +878,19 @@ func (P *Program) GuardsWithin(ins ssa.Instruction, top *ssa.Function) []Lit {
 type ValueCase struct {
 	Val    ssa.Value
 	Guards []Lit
+	Desc   string // descriptor of Val in the calling context it was found in
 }
 
 // ValueCases splits v into its alternatives through phis (edge guards) and through product helpers that compute
 // it (guards of each return statement, read in the calling context of that call).
 func (P *Program) ValueCases(v ssa.Value, depth int) []ValueCase {
 	if depth > 6 {
-		return []ValueCase{{Val: v}}
+		return []ValueCase{{Val: v, Desc: P.Desc(v)}}
 	}
 	with := func(cs []ValueCase, g []Lit) []ValueCase {
 		var out []ValueCase
 		for _, c := range cs {
-			out = append(out, ValueCase{c.Val, dedupLits(append(append([]Lit{}, c.Guards...), g...))})
+			out = append(out, ValueCase{c.Val, dedupLits(append(append([]Lit{}, c.Guards...), g...)), c.Desc})
 		}
 		return out
 	}
@@ -931,5 +932,5 @@ func (P *Program) ValueCases(v ssa.Value, depth int) []ValueCase {
 			}
 		}
 	}
-	return []ValueCase{{Val: v}}
+	return []ValueCase{{Val: v, Desc: P.Desc(v)}}
 }
